@@ -136,6 +136,28 @@ impl FeR {
     }
 }
 
+/// canonical limbs built from two words: random selections, and short curated groups whose xor / wrapping
+/// sum cancels ([w1,w1], [w1,w2,w1^w2], ...), placed at a generated offset below the top limb
+pub fn limb_combo_strategy(nlimbs: usize) -> BoxedStrategy<FeR> {
+    const GROUPS: [&[u8]; 8] = [&[1, 1], &[1, 2, 3], &[1, 1, 2, 2], &[1, 2, 1, 2], &[3, 3], &[1, 0, 1], &[1, 5], &[4, 1, 2]];
+    prop_oneof![
+        1 => (any::<u64>(), any::<u64>(), proptest::collection::vec(prop_oneof![3 => Just(0u8), 3 => Just(1u8), 2 => Just(2u8), 2 => Just(3u8), 1 => Just(4u8), 1 => Just(5u8)], nlimbs)).prop_map(|(a, b, p)| FeR::LimbCombo(a, b, p)),
+        1 => (any::<u64>(), any::<u64>(), 0usize..GROUPS.len(), any::<u8>()).prop_map(move |(a, b, g, off)| {
+            let grp = GROUPS[g];
+            let room = nlimbs - 1 - std::cmp::min(grp.len(), nlimbs - 1);
+            let off = (off as usize * (room + 1)) >> 8;
+            let mut p = vec![0u8; nlimbs];
+            for (i, v) in grp.iter().enumerate() {
+                if off + i < nlimbs - 1 {
+                    p[off + i] = *v;
+                }
+            }
+            FeR::LimbCombo(a, b, p)
+        }),
+    ]
+    .boxed()
+}
+
 pub fn fe_strategy(nlimbs: usize) -> BoxedStrategy<FeR> {
     let bits = (64 * nlimbs) as u16;
     prop_oneof![
@@ -153,7 +175,7 @@ pub fn fe_strategy(nlimbs: usize) -> BoxedStrategy<FeR> {
         1 => Just(FeR::MontRM1),
         2 => any::<u16>().prop_map(FeR::Small),
         4 => proptest::collection::vec(0u8..4, nlimbs).prop_map(FeR::MontPattern),
-        3 => (any::<u64>(), any::<u64>(), proptest::collection::vec(prop_oneof![3 => Just(0u8), 3 => Just(1u8), 2 => Just(2u8), 2 => Just(3u8), 1 => Just(4u8), 1 => Just(5u8)], nlimbs)).prop_map(|(a, b, p)| FeR::LimbCombo(a, b, p)),
+        3 => limb_combo_strategy(nlimbs),
         14 => proptest::collection::vec(any::<u64>(), nlimbs).prop_map(FeR::Limbs),
     ]
     .boxed()
@@ -190,6 +212,8 @@ pub fn fq2_strategy() -> BoxedStrategy<Fq2R> {
         8 => (fq_uniformish(), fq_uniformish()).prop_map(|(a, b)| Fq2R(a, b)),
         2 => fq_strategy().prop_map(|a| Fq2R(a, FeR::Zero)),
         2 => fq_strategy().prop_map(|b| Fq2R(FeR::Zero, b)),
+        1 => (limb_combo_strategy(6), fq_strategy()).prop_map(|(a, b)| Fq2R(a, b)),
+        1 => (fq_strategy(), limb_combo_strategy(6)).prop_map(|(a, b)| Fq2R(a, b)),
     ]
     .boxed()
 }
